@@ -1,6 +1,9 @@
 package profile
 
-import "fmt"
+import (
+	"fmt"
+	"sync/atomic"
+)
 
 type VarGenerator struct {
 	vars    []string
@@ -16,15 +19,16 @@ func NewVarGenerator() VarGenerator {
 	}
 }
 
-var globalGenerator = NewVarGenerator()
+// genvarCounter is shared by every compilation in the process, so it is only touched atomically
+var genvarCounter int64
 
 func Genvar(hint string) string {
-	globalGenerator.counter++
-	return fmt.Sprintf("gen_%s_%d", hint, globalGenerator.counter)
+	n := atomic.AddInt64(&genvarCounter, 1)
+	return fmt.Sprintf("gen_%s_%d", hint, n)
 }
 
 func GenReset() {
-	globalGenerator.counter = 0
+	atomic.StoreInt64(&genvarCounter, 0)
 }
 
 func (g *VarGenerator) GenExpressionVar(quantification Quantification, cardinality *VariableCardinality) Variable {
